@@ -45,7 +45,11 @@ var resultRe = regexp.MustCompile(`(?m)^VERIF-RESULT: (.*)$`)
 
 // writeReplay materialises a replay directory for a violating path and runs it natively.
 func writeReplay(prop string, js *JobSpec, pr *sx.PathResult, idx int, known map[string]bool, run bool) (*replayOutcome, error) {
-	dir := filepath.Join(verifDir, "out", "replay", prop, fmt.Sprintf("%s-%d", sanitize(js.Name), idx))
+	return writeReplayIn(prop, "", js, pr, idx, known, run)
+}
+
+func writeReplayIn(prop, sub string, js *JobSpec, pr *sx.PathResult, idx int, known map[string]bool, run bool) (*replayOutcome, error) {
+	dir := filepath.Join(verifDir, "out", "replay", prop, sub, fmt.Sprintf("%s-%d", sanitize(js.Name), idx))
 	os.RemoveAll(dir)
 	if err := os.MkdirAll(dir, 0755); err != nil {
 		return nil, err
